@@ -410,7 +410,14 @@ func tryConcreteReplay(ld *Loader, r *Replay, o *Obligation, results []*FuncResu
 			}
 		}
 	}
-	vals, ok := getValues(vc, o, nil, terms, dir, "in")
+	var smallPins []string
+	if memName != "" {
+		smallPins = append(smallPins, fmt.Sprintf("(bvule (sl-len p!%s) (_ bv16 64))", memName))
+	}
+	vals, ok := getValues(vc, o, smallPins, terms, dir, "in")
+	if !ok {
+		vals, ok = getValues(vc, o, nil, terms, dir, "in")
+	}
 	if !ok {
 		r.Note = "could not re-obtain a model with input values"
 		return
